@@ -432,8 +432,10 @@ def judgeSend (js : JState) (v2 : Bool) (req : List SeriesD) (o : ImplOut) : Lis
   -- the window the appender works with
   let firstT : Option Int :=
     (valid.flatMap fun s =>
-      -- the start-timestamp call reaches the head (and initialises it) whatever the timestamp is
-      let viaST := fun (t st : Int) => v2 ∧ js.fl.ingestST ∧ st ≠ 0 ∧ t ≠ 0
+      -- the start-timestamp call reaches the head (and initialises it) whatever the timestamp is (finding
+      -- C41-F4), unless /repo has fixes/C41-F4.patch (`repoFixedFutureST`): then only within the bound
+      let viaST := fun (t st : Int) => v2 ∧ js.fl.ingestST ∧ st ≠ 0 ∧ t ≠ 0 ∧
+        (repoFixedFutureST = false ∨ (t ≤ futureLimit ∧ st ≤ futureLimit))
       let a := (s.samples.filter (fun x => viaST x.t x.st ∨ (x.t ≤ futureLimit ∧ x.t ≠ magicT))).map (·.t)
       let h := (s.hists.filter (fun x => viaST x.t x.st ∨ (x.t ≤ futureLimit ∧ x.t ≠ magicT))).map (·.t)
       let e := ((s.exs.filter (·.lbl.isSome)).map (·.t)).filter (fun t => t ≤ futureLimit)
